@@ -19,7 +19,7 @@ ASSUMPTIONS = ['exactq / exact_extra (Python int arithmetic; enclosure = product
                'operands are injected exactly through ctx.make_mpf (raw tuple), results read from ._mpf_',
                '"few bits" is fixed a priori as: n >= 0 and the exact power has at most 700 significant bits',
                '"within one ulp" = |result - exact| <= ulp(exact) (2 ulp(exact) if the result lies in the next binade, i.e. one ulp of the result)']
-SHARD_TIMEOUT = {'quick': 300, 'thorough': 2400}
+SHARD_TIMEOUT = {'quick': 600, 'thorough': 5400}
 LEVEL_TEXT = ('exploration: ~2*10^5 (quick) / ~2.5*10^6 (thorough) generated powers on the real code; every result decided '
               'against the exact power or a rigorous enclosure: directed side, exactness, 1 ulp in nearest mode, correct rounding '
               'when the exact value has <= 700 bits')
